@@ -909,4 +909,5 @@ end RenetVerif.SrcPropsNcHistory
     `Sv.SOp` and `NS.Op` are isomorphic).
   DONE LATER, elsewhere: the client trace system (`Lemmas/SrcEquiv/SrcNcClientSystem.lean`, `Props/SrcPropsNcClientHistory.lean`);
   C10 `no_second_connected`, `log_replays` and the per-call C04 server statements (`Props/SrcPropsNcHistoryMore.lean`).
+  DONE LATER (round 20), elsewhere: (c) → Props/C04H.lean + Props/SrcPropsNcPayloadOnce.lean; (e) → Props/SrcPropsNcNonces.lean.
 -/
